@@ -100,9 +100,8 @@ def parseOt (line : String) : Option Ot :=
   | _ => none
 
 def modelOt (o : Ot) : String :=
-  -- known finding: nth_channel_view evaluates src(0,0) before anything else (assert-enabled builds)
-  if o.w == 0 then "assert:0<=x&&x<width()"
-  else if o.h == 0 then "assert:0<=y&&y<height()"
+  -- (empty images: threshold_optimal returns before nth_channel_view since the fix bf7cc3d; destination untouched)
+  if o.w == 0 ∨ o.h == 0 then showPlanes o.w o.h (o.planes.map fun _ => [])
   else
     match o.planes.mapM (fun p => otsuChannel o.c true o.inv p) with
     | .ok planes => showPlanes o.w o.h planes
